@@ -1,5 +1,393 @@
 package main
 
-func replayModel(o opts, e *Engine, ob *Obligation) (bool, map[string]interface{}) {
-	return false, map[string]interface{}{"replay": "no replay harness for this function shape"}
+// Counterexample replay for refuted postconditions of functions with a simple signature.
+//
+// The refuting model fixes the inputs AND the outputs the symbolic execution predicts for them (the clause is false for
+// that pair). Replay = read both from the solver (get-value on watch constants, first under small-value bounds), run the
+// REAL function on the inputs through `go test -overlay` (nothing is written into the repository), and compare the
+// observed outputs with the predicted ones: equal => the violation is confirmed on the real code with that input.
+//
+// Supported shapes (everything else answers "no replay harness for this function shape"): top-level functions and
+// methods without free variables; parameters / receiver of kind int*, bool, string, time.Duration, []string, []int*,
+// pointer to a struct whose fields are of those scalar kinds; results int*, bool, error (nil-ness).
+
+import (
+	"bytes"
+	"context"
+	"fmt"
+	"go/types"
+	"os"
+	"os/exec"
+	"path/filepath"
+	"regexp"
+	"sort"
+	"strconv"
+	"strings"
+	"time"
+
+	"golang.org/x/tools/go/ssa"
+)
+
+type watchVar struct {
+	name string // W!k
+	term *Term
+	what string // description: param path
 }
+
+type replayPlan struct {
+	fn      *ssa.Function
+	watches []watchVar
+	file    string
+	// layout
+	params  []replayParam
+	results []replayResult
+}
+
+type replayParam struct {
+	name   string
+	typ    types.Type
+	kind   string // int bool string dur strs ints ptrstruct
+	w      int    // watch index of the scalar / slice length / pointer
+	elems  []int  // watch indices of slice elements
+	fields []replayField
+}
+
+type replayField struct {
+	name string
+	kind string
+	typ  types.Type
+	w    int
+}
+
+type replayResult struct {
+	kind string // int bool error
+	w    int
+}
+
+const replayMaxLen = 5
+
+func scalarKind(t types.Type) string {
+	if t.String() == "time.Duration" {
+		return "dur"
+	}
+	if b, ok := t.Underlying().(*types.Basic); ok {
+		switch {
+		case b.Info()&types.IsInteger != 0:
+			return "int"
+		case b.Info()&types.IsBoolean != 0:
+			return "bool"
+		case b.Info()&types.IsString != 0:
+			return "string"
+		}
+	}
+	return ""
+}
+
+// planReplay builds the watch list for a post obligation; nil if the shape is not supported.
+func planReplay(ob *Obligation) *replayPlan {
+	f := ob.ctx
+	if os.Getenv("GOVC_DEBUG") != "" && ob.Kind == "post" {
+		fmt.Fprintf(os.Stderr, "DEBUG planReplay %s ctx=%v parent=%v res=%T\n", ob.ID, f != nil, f != nil && f.parent != nil, func() Value { if f != nil { return f.exitResults }; return nil }())
+	}
+	if f == nil || f.parent != nil || ob.Kind != "post" || f.exitResults == nil {
+		return nil
+	}
+	fn := f.fn
+	if len(fn.FreeVars) > 0 || fn.Parent() != nil || fn.TypeParams().Len() > 0 || fn.Signature.Variadic() {
+		return nil
+	}
+	pl := &replayPlan{fn: fn}
+	add := func(t *Term, what string) int {
+		pl.watches = append(pl.watches, watchVar{name: fmt.Sprintf("W!%d", len(pl.watches)), term: t, what: what})
+		return len(pl.watches) - 1
+	}
+	for i, p := range fn.Params {
+		at, ok := f.args[i].(*Term)
+		if !ok {
+			return nil
+		}
+		rp := replayParam{name: p.Name(), typ: p.Type()}
+		if k := scalarKind(p.Type()); k != "" {
+			rp.kind = k
+			rp.w = add(at, p.Name())
+		} else if sl, ok := p.Type().Underlying().(*types.Slice); ok {
+			ek := scalarKind(sl.Elem())
+			if ek != "string" && ek != "int" {
+				return nil
+			}
+			rp.kind = map[string]string{"string": "strs", "int": "ints"}[ek]
+			rp.w = add(slLen(at), "len("+p.Name()+")")
+			for j := 0; j < replayMaxLen; j++ {
+				rp.elems = append(rp.elems, add(tSelect(slArr(at), tInt(int64(j))), fmt.Sprintf("%s[%d]", p.Name(), j)))
+			}
+		} else if pt, ok := p.Type().Underlying().(*types.Pointer); ok {
+			stt, ok := pt.Elem().Underlying().(*types.Struct)
+			if !ok || specialSort(pt.Elem()) != nil {
+				return nil
+			}
+			rp.kind = "ptrstruct"
+			rp.w = add(at, p.Name())
+			for j := 0; j < stt.NumFields(); j++ {
+				fk := scalarKind(stt.Field(j).Type())
+				if fk == "" {
+					return nil
+				}
+				v := tSelect(f.entry.heap(fieldHeapKey(pt.Elem(), j)), at)
+				rp.fields = append(rp.fields, replayField{name: stt.Field(j).Name(), kind: fk, typ: stt.Field(j).Type(), w: add(v, p.Name()+"."+stt.Field(j).Name())})
+			}
+		} else {
+			return nil
+		}
+		pl.params = append(pl.params, rp)
+	}
+	var res []Value
+	switch x := f.exitResults.(type) {
+	case *Tuple:
+		res = x.Elems
+	case []Value:
+		res = x
+	case nil:
+	default:
+		res = []Value{x}
+	}
+	rs := fn.Signature.Results()
+	if rs.Len() == 0 || rs.Len() != len(res) {
+		return nil
+	}
+	for i := 0; i < rs.Len(); i++ {
+		t, ok := res[i].(*Term)
+		if !ok {
+			return nil
+		}
+		k := scalarKind(rs.At(i).Type())
+		if rs.At(i).Type().String() == "error" {
+			k = "error"
+		}
+		if k != "int" && k != "bool" && k != "error" {
+			return nil
+		}
+		pl.results = append(pl.results, replayResult{kind: k, w: add(t, fmt.Sprintf("result%d", i))})
+	}
+	return pl
+}
+
+// emitReplayQuery: the obligation's query with watch constants and optional small-value bounds.
+func emitReplayQuery(hyps []*Term, goal *Term, pl *replayPlan, bounded bool) string {
+	var extra []*Term
+	var ws []*Term
+	for _, w := range pl.watches {
+		c := sym("replay$"+w.name, w.term.Sort)
+		extra = append(extra, tEq(c, w.term))
+		ws = append(ws, c)
+		if bounded && w.term.Sort == sortInt {
+			if strings.HasPrefix(w.what, "len(") {
+				extra = append(extra, tLe(c, tInt(replayMaxLen)))
+			} else if !strings.HasPrefix(w.what, "result") {
+				extra = append(extra, tAnd(tLe(tInt(-32), c), tLe(c, tInt(32))))
+			}
+		}
+	}
+	q, _ := emitQuery(append(append([]*Term{}, hyps...), extra...), goal, false)
+	var sb strings.Builder
+	sb.WriteString(q)
+	sb.WriteString("(get-value (")
+	for _, c := range ws {
+		sb.WriteString(" |" + c.Op[1:] + "|")
+	}
+	sb.WriteString("))\n")
+	return sb.String()
+}
+
+var valueRe = regexp.MustCompile(`\(\|?replay\$(W![0-9]+)\|?\s+((?:\([^()]*\))|[^()\s]+)\)`)
+
+func parseValues(out string) map[string]string {
+	m := map[string]string{}
+	for _, g := range valueRe.FindAllStringSubmatch(out, -1) {
+		v := strings.TrimSpace(g[2])
+		if strings.HasPrefix(v, "(-") {
+			v = "-" + strings.TrimSpace(strings.Trim(v[2:], "() "))
+		}
+		m[g[1]] = v
+	}
+	return m
+}
+
+func replayModel(o opts, e *Engine, ob *Obligation) (bool, map[string]interface{}) {
+	pl := ob.replay
+	if pl == nil {
+		return false, map[string]interface{}{"replay": "no replay harness for this function shape"}
+	}
+	var vals map[string]string
+	used := ""
+	for _, f := range []string{pl.file + ".bounded.smt2", pl.file + ".smt2"} {
+		ctx, cancel := context.WithTimeout(context.Background(), 20*time.Second)
+		cmd := exec.CommandContext(ctx, "z3-new", "-T:15", f)
+		var out bytes.Buffer
+		cmd.Stdout = &out
+		_ = cmd.Run()
+		cancel()
+		txt := out.String()
+		if strings.HasPrefix(strings.TrimSpace(txt), "sat") {
+			vals = parseValues(txt)
+			used = f
+			break
+		}
+	}
+	if vals == nil {
+		return false, map[string]interface{}{"replay": "the solver gave no model for the replay query"}
+	}
+	get := func(i int) string { return vals[fmt.Sprintf("W!%d", i)] }
+	atoi := func(s string) (int64, bool) {
+		n, err := strconv.ParseInt(s, 10, 64)
+		return n, err == nil
+	}
+	strLit := func(v string) string {
+		// abstract string values: one Go literal per distinct model value
+		return strconv.Quote("s" + regexp.MustCompile(`[^0-9A-Za-z]+`).ReplaceAllString(v, "_"))
+	}
+	inputs := map[string]interface{}{}
+	var code strings.Builder
+	var argNames []string
+	scalarGo := func(kind string, typ types.Type, v string) (string, bool) {
+		switch kind {
+		case "int", "dur":
+			n, ok := atoi(v)
+			if !ok {
+				return "", false
+			}
+			return fmt.Sprintf("%s(%d)", types.TypeString(typ, types.RelativeTo(pl.fn.Pkg.Pkg)), n), true
+		case "bool":
+			return v, v == "true" || v == "false"
+		case "string":
+			return strLit(v), true
+		}
+		return "", false
+	}
+	for _, p := range pl.params {
+		name := "a_" + p.name
+		argNames = append(argNames, name)
+		switch p.kind {
+		case "int", "dur", "bool", "string":
+			g, ok := scalarGo(p.kind, p.typ, get(p.w))
+			if !ok {
+				return false, map[string]interface{}{"replay": "model value of " + p.name + " not representable: " + get(p.w)}
+			}
+			fmt.Fprintf(&code, "\t%s := %s\n", name, g)
+			inputs[p.name] = get(p.w)
+		case "strs", "ints":
+			n, ok := atoi(get(p.w))
+			if !ok || n < 0 || n > replayMaxLen {
+				return false, map[string]interface{}{"replay": fmt.Sprintf("model needs len(%s) = %s (replay bound %d)", p.name, get(p.w), replayMaxLen)}
+			}
+			var el []string
+			for j := int64(0); j < n; j++ {
+				ek := map[string]string{"strs": "string", "ints": "int"}[p.kind]
+				g, ok := scalarGo(ek, p.typ.Underlying().(*types.Slice).Elem(), get(p.elems[j]))
+				if !ok {
+					return false, map[string]interface{}{"replay": "model element not representable"}
+				}
+				el = append(el, g)
+			}
+			fmt.Fprintf(&code, "\t%s := %s{%s}\n", name, types.TypeString(p.typ, types.RelativeTo(pl.fn.Pkg.Pkg)), strings.Join(el, ", "))
+			inputs[p.name] = el
+		case "ptrstruct":
+			if get(p.w) == "0" {
+				fmt.Fprintf(&code, "\tvar %s %s\n", name, types.TypeString(p.typ, types.RelativeTo(pl.fn.Pkg.Pkg)))
+				inputs[p.name] = "nil"
+				break
+			}
+			var fs []string
+			fm := map[string]string{}
+			for _, fl := range p.fields {
+				g, ok := scalarGo(fl.kind, fl.typ, get(fl.w))
+				if !ok {
+					return false, map[string]interface{}{"replay": "model field value not representable"}
+				}
+				fs = append(fs, fl.name+": "+g)
+				fm[fl.name] = get(fl.w)
+			}
+			el := types.TypeString(p.typ.Underlying().(*types.Pointer).Elem(), types.RelativeTo(pl.fn.Pkg.Pkg))
+			fmt.Fprintf(&code, "\t%s := &%s{%s}\n", name, el, strings.Join(fs, ", "))
+			inputs[p.name] = fm
+		}
+	}
+	// call
+	call := ""
+	if pl.fn.Signature.Recv() != nil {
+		call = fmt.Sprintf("%s.%s(%s)", argNames[0], pl.fn.Name(), strings.Join(argNames[1:], ", "))
+	} else {
+		call = fmt.Sprintf("%s(%s)", pl.fn.Name(), strings.Join(argNames, ", "))
+	}
+	var rn []string
+	for i := range pl.results {
+		rn = append(rn, fmt.Sprintf("r%d", i))
+	}
+	var pr []string
+	for i, r := range pl.results {
+		if r.kind == "error" {
+			pr = append(pr, fmt.Sprintf("r%d != nil", i))
+		} else {
+			pr = append(pr, fmt.Sprintf("r%d", i))
+		}
+	}
+	needTime := strings.Contains(code.String(), "time.")
+	imports := "\t\"fmt\"\n\t\"testing\"\n"
+	if needTime {
+		imports += "\t\"time\"\n"
+	}
+	src := fmt.Sprintf("package %s\n\nimport (\n%s)\n\n// generated by govc: replay of the verifier's counterexample for\n// %s\nfunc TestVerifReplayModel(t *testing.T) {\n%s\t%s := %s\n\tfmt.Println(\"VERIF-REPLAY-RESULT\", %s)\n}\n",
+		pl.fn.Pkg.Pkg.Name(), imports, ob.ID, code.String(), strings.Join(rn, ", "), call, strings.Join(pr, ", "))
+	// expected outputs from the model
+	var expect []string
+	for _, r := range pl.results {
+		v := get(r.w)
+		if r.kind == "error" {
+			v = strconv.FormatBool(v != "0")
+		}
+		expect = append(expect, v)
+	}
+	// run on the real code
+	pkgDir := filepath.Dir(e.prog.Fset.Position(pl.fn.Pos()).Filename)
+	tmp, _ := os.MkdirTemp("", "govc-replay")
+	defer os.RemoveAll(tmp)
+	tf := filepath.Join(tmp, "zz_verif_replay_model_test.go")
+	os.WriteFile(tf, []byte(src), 0o644)
+	ov := filepath.Join(tmp, "ov.json")
+	os.WriteFile(ov, []byte(fmt.Sprintf(`{"Replace":{%q:%q}}`, filepath.Join(pkgDir, "zz_verif_replay_model_test.go"), tf)), 0o644)
+	ctx, cancel := context.WithTimeout(context.Background(), 120*time.Second)
+	defer cancel()
+	cmd := exec.CommandContext(ctx, "go", "test", "-tags", "verif", "-overlay", ov, "-vet=off", "-count=1", "-timeout", "60s", "-v", "-run", "TestVerifReplayModel", ".")
+	cmd.Dir = pkgDir
+	var out bytes.Buffer
+	cmd.Stdout = &out
+	cmd.Stderr = &out
+	_ = cmd.Run()
+	observed := ""
+	for _, l := range strings.Split(out.String(), "\n") {
+		if strings.HasPrefix(l, "VERIF-REPLAY-RESULT") {
+			observed = strings.TrimSpace(strings.TrimPrefix(l, "VERIF-REPLAY-RESULT"))
+		}
+	}
+	detail := map[string]interface{}{
+		"replay_query": used, "inputs": inputs, "predicted_outputs": expect, "observed_outputs": observed, "test_source": src,
+	}
+	if observed == "" {
+		tail := out.String()
+		if len(tail) > 1500 {
+			tail = tail[len(tail)-1500:]
+		}
+		detail["replay"] = "the generated test did not produce a result (panic or build failure): " + tail
+		if strings.Contains(out.String(), "panic:") {
+			detail["observed_outputs"] = "panic"
+		}
+		return false, detail
+	}
+	if observed == strings.Join(expect, " ") {
+		detail["replay"] = "confirmed: the real function returns the outputs of the refuting model for these inputs, and the clause is false for that pair"
+		return true, detail
+	}
+	detail["replay"] = "NOT confirmed: the real function's outputs differ from the model's prediction (engine semantics or abstraction): treat as undecided"
+	return false, detail
+}
+
+var _ = sort.Strings
